@@ -386,7 +386,15 @@ func runVerify(s *kernel.Sim, p params) {
 	cfg := &security.SecurityConfig{TokenMaxAge: maxAge}
 	tw.ServerToken(cfg)
 	_, err := security.VerifyIDToken(tok, cfg)
-	vd, why := verdict(tok, keys, hs.Now())
+	// standalone verification reads the clock once, at an instant the harness knows exactly
+	// (whole virtual seconds, no exchange during which time passes): the reference is applied
+	// at that very second, boundaries included (a token is expired from the second exp on)
+	vd, why := -1, ""
+	if ok, r := refcodec.ParseToken(tok).Judge(keys, hs.Now(), maxAge); ok {
+		vd, why = 1, r
+	} else {
+		why = r
+	}
 	sig := fmt.Sprintf("%s/clock+%d", p.Var, p.Clock)
 	if err == nil && vd < 0 {
 		s.Violate("verifier-accepted-invalid-token", sig, fmt.Sprintf("VerifyIDToken accepted a token the reference rejects (%s); bit %d", why, p.Bit))
